@@ -10,6 +10,14 @@ UNITS = [
          what="luma/Cb/Cr SSE written to the picture == the definition (sum of squared differences over the visible "
               "samples, truncated to 32 bits), for every content, stride, origin and padding within the bound"),
 ]
+from units.c03 import HDR, DRAIN, STUBS as STUBS03
+UNITS.append(Unit(
+    uid="U26.2.handoff", prop="C26", harness="harness/c03_packet.c", entry="h_header", mode="plain", defines=["U03_HEADER"],
+    functions=["packetization_kernel [block slice: packet header]"], slice_spec=[HDR, DRAIN], replace_calls=STUBS03,
+    keep_bodies=["verif_c03_header"], min_obligations=20, cover_functions=[], timeout=300,
+    what="the three SSE values computed for the picture are handed to the output packet, each plane to its own field, "
+         "exactly when statistics reporting is on, and are 0 otherwise (same unit as U03.1)",
+    assumptions=["block slice: everything of the kernel outside the range is dropped"]))
 META = {"C26": {
     "level": "other",
     "explanation": "bounded: psnr_calculations (8-bit) against the SSE definition computed by ghost loops, on small "
